@@ -178,7 +178,8 @@ class StreamStatistics:
 
     @property
     def jitter(self) -> int:
-        return self._jitter_q4 >> 4
+        # saturate, the RTCP receiver report field is 32 bits wide
+        return min(self._jitter_q4 >> 4, 0xFFFFFFFF)
 
     @property
     def packets_expected(self) -> int:
